@@ -21,6 +21,7 @@ type Clause struct {
 	Label string
 	Expr  ast.Expr
 	Src   string
+	Trusted bool   // not checked against the body: assumed for callers and listed as trusted
 	From  []string // prove this clause from the named earlier clauses (and the requires) only
 }
 
@@ -36,6 +37,12 @@ type GhostStmt struct {
 	Stmt int    // statement ordinal (pre-order index among statements of the body)
 	Var  string
 	Expr ast.Expr
+}
+
+type GhostDecl struct {
+	Name string
+	Sort *Sort
+	Var  bool // global ghost variable rather than a per-object field
 }
 
 type Macro struct {
@@ -56,6 +63,8 @@ type Contract struct {
 	Returns   ast.Expr
 	ReturnsIf []Clause // returns_if cond: expr  (Label unused; Expr = cond, From[0] = source of value expr)
 	ReturnsIfVal []ast.Expr
+	ReturnsElse  ast.Expr
+	UseAxioms    []string
 	Loops     map[int]*LoopContract
 	Inline    bool
 	Assume    bool
@@ -256,6 +265,65 @@ func (eng *Engine) loadContractFile(file string) error {
 			loop = nil
 			continue
 		}
+		if kw == "ghostfield" || kw == "ghostvar" {
+			f := strings.Fields(rest)
+			if len(f) != 2 {
+				return errf("%s name Sort", kw)
+			}
+			var so *Sort
+			switch f[1] {
+			case "Int":
+				so = IntSort
+			case "Bool":
+				so = BoolSort
+			default:
+				return errf("ghost sort %s", f[1])
+			}
+			eng.ghosts[f[0]] = &GhostDecl{Name: f[0], Sort: so, Var: kw == "ghostvar"}
+			continue
+		}
+		if kw == "uf" {
+			// uf name Sort [lo hi]
+			f := strings.Fields(rest)
+			if len(f) < 2 {
+				return errf("uf name Sort [lo hi]")
+			}
+			sig := ufSig{}
+			switch f[1] {
+			case "Int":
+				sig.res = IntSort
+			case "Bool":
+				sig.res = BoolSort
+			default:
+				return errf("uf sort %s", f[1])
+			}
+			if len(f) == 4 {
+				lo, err1 := parseSpecExpr(f[2])
+				hi, err2 := parseSpecExpr(f[3])
+				if err1 != nil || err2 != nil {
+					return errf("uf range")
+				}
+				sig.loE, sig.hiE = lo, hi
+			}
+			ufSigs[f[0]] = sig
+			continue
+		}
+		if kw == "axiom" {
+			c, err := parseClause(rest)
+			if err != nil {
+				return errf("%v", err)
+			}
+			eng.axioms = append(eng.axioms, GlobalFact{Clause: c, File: file, Pkg: pkgOfFile(string(data))})
+			continue
+		}
+		if kw == "global_fact" {
+			c, err := parseClause(rest)
+			if err != nil {
+				return errf("%v", err)
+			}
+			eng.globalFacts = append(eng.globalFacts, GlobalFact{Clause: c, File: file, Pkg: pkgOfFile(string(data))})
+			continue
+		}
 		if kw == "define" {
 			// define name(p1,p2) = expr
 			eq := strings.Index(rest, "=")
@@ -295,6 +363,8 @@ func (eng *Engine) loadContractFile(file string) error {
 			}
 		case "inline":
 			cur.Inline = true
+		case "use_axiom":
+			cur.UseAxioms = append(cur.UseAxioms, strings.Fields(strings.ReplaceAll(rest, ",", " "))...)
 		case "opaque_products":
 			cur.Opaque = true
 		case "noalias":
@@ -315,7 +385,7 @@ func (eng *Engine) loadContractFile(file string) error {
 			cur.Declass = append(cur.Declass, strings.Fields(strings.ReplaceAll(rest, ",", " "))...)
 		case "fresh":
 			cur.Fresh = append(cur.Fresh, strings.Fields(strings.ReplaceAll(rest, ",", " "))...)
-		case "requires", "ensures", "panics_if", "invariant", "case", "lemma", "fact":
+		case "requires", "ensures", "trusted_ensures", "panics_if", "invariant", "case", "lemma", "fact":
 			c, err := parseClause(rest)
 			if err != nil {
 				return errf("%v", err)
@@ -324,6 +394,9 @@ func (eng *Engine) loadContractFile(file string) error {
 			case "requires":
 				cur.Requires = append(cur.Requires, c)
 			case "ensures":
+				cur.Ensures = append(cur.Ensures, c)
+			case "trusted_ensures":
+				c.Trusted = true
 				cur.Ensures = append(cur.Ensures, c)
 			case "panics_if":
 				cur.PanicsIf = append(cur.PanicsIf, c)
@@ -363,6 +436,12 @@ func (eng *Engine) loadContractFile(file string) error {
 			}
 			cur.ReturnsIf = append(cur.ReturnsIf, c)
 			cur.ReturnsIfVal = append(cur.ReturnsIfVal, v)
+		case "returns_else":
+			e, err := parseSpecExpr(rest)
+			if err != nil {
+				return errf("%v", err)
+			}
+			cur.ReturnsElse = e
 		case "returns":
 			e, err := parseSpecExpr(rest)
 			if err != nil {
@@ -431,6 +510,7 @@ type specEnv struct {
 	fr     *frame            // frame giving access to local variables by name (may be nil)
 	locals map[string]*types.Var
 	sigOverride *types.Signature
+	noUnfold    bool
 	assume      bool                  // evaluating a hypothesis: existentials are skolemised
 	witness     map[string][]ast.Expr // evaluating a goal: candidates for existential variables
 }
@@ -588,8 +668,15 @@ func (env *specEnv) eval(e ast.Expr) Value {
 		if v, ok := env.lookupLocal(x.Name); ok {
 			return v
 		}
+		if gd, ok := ex.eng.ghosts[x.Name]; ok && gd.Var {
+			if v, ok := env.st.ghost[x.Name]; ok {
+				return v
+			}
+			v := Var("ghost."+x.Name+"@entry", gd.Sort)
+			return v
+		}
 		if g, ok := env.st.ghost[x.Name]; ok {
-			if p, isP := g.(*Ptr); isP && strings.HasPrefix(x.Name, "$") {
+			if p, isP := g.(*Ptr); isP && x.Name == "range_i" {
 				return env.st.heap[p.Obj]
 			}
 			return g
@@ -824,6 +911,9 @@ func (env *specEnv) unify(a, b Value) (*Term, *Term) {
 		}
 		env.fail("constant against sort %s", s)
 		return nil
+	}
+	if ca != nil && cb != nil {
+		return conv(ca, env.ex.idxSort()), conv(cb, env.ex.idxSort())
 	}
 	switch {
 	case aok && bok:
@@ -1093,7 +1183,7 @@ func (env *specEnv) valuesEqualSpec(l, r Value) *Term {
 		case *Slice:
 			return x.Nil
 		case *Ptr:
-			return BoolC(x.Obj == nil)
+			return ptrNil(x)
 		case *ErrV:
 			return Not(x.NonNil)
 		case *Iface:
@@ -1112,6 +1202,12 @@ func (env *specEnv) valuesEqualSpec(l, r Value) *Term {
 	switch x := l.(type) {
 	case *Ptr:
 		if y, ok := r.(*Ptr); ok {
+			if x.Obj == nil || y.Obj == nil || x.NilC != nil || y.NilC != nil {
+				if x.Obj == nil && y.Obj == nil {
+					return True
+				}
+				return And(Eq(ptrNil(x), ptrNil(y)), Or(ptrNil(x), BoolC(samePtr(x, y))))
+			}
 			return BoolC(samePtr(x, y))
 		}
 	case *Slice:
@@ -1285,6 +1381,19 @@ func (env *specEnv) call(c *ast.CallExpr) Value {
 			return And(BoolC(samePtr(a.Base, b.Base)), Eq(a.Off, b.Off))
 		}
 		env.fail("same_array of %T, %T", arg(0), arg(1))
+	case "forallInt":
+		id, ok := c.Args[0].(*ast.Ident)
+		if !ok || len(c.Args) != 2 {
+			env.fail("forallInt(k, body)")
+		}
+		bv := BoundVar(fmt.Sprintf("%s!%d", id.Name, boundCounter()), IntSort)
+		sub := *env
+		sub.names = map[string]Value{}
+		for k, v := range env.names {
+			sub.names[k] = v
+		}
+		sub.names[id.Name] = bv
+		return Forall([]*Term{bv}, sub.toBool(sub.eval(c.Args[1])))
 	case "existsInt":
 		// existsInt(k, body): as a hypothesis k is a fresh integer; as a goal the
 		// contract's `witness k = c1 | c2` candidates are tried (disjunction).
@@ -1311,6 +1420,9 @@ func (env *specEnv) call(c *ast.CallExpr) Value {
 			alts = append(alts, sub.toBool(sub.eval(c.Args[1])))
 		}
 		return Or(alts...)
+	case "be":
+		// big-endian value of a byte string
+		return env.beValue(arg(0))
 	case "span":
 		// span(p): elements addressable from pointer p inside the slice/array it was derived from
 		pv, ok := arg(0).(*Ptr)
@@ -1373,6 +1485,18 @@ func (env *specEnv) call(c *ast.CallExpr) Value {
 		}
 		return ex.idxConst(0)
 	}
+	if gd, ok := ex.eng.ghosts[name]; ok && !gd.Var {
+		pv, ok := arg(0).(*Ptr)
+		if !ok || pv.Obj == nil {
+			// ghost field of a nil object: arbitrary
+			return Fresh("ghost."+name+"(nil)", gd.Sort)
+		}
+		key := fmt.Sprintf("%s(%s%s)", name, pv.Obj, pathKey(pv.Path))
+		if v, ok := env.st.ghost[key]; ok {
+			return v
+		}
+		return Var(fmt.Sprintf("ghost.%s@v%d", key, env.st.gver[pv.Obj]), gd.Sort)
+	}
 	if m, ok := ex.eng.macros[name]; ok {
 		if len(m.Params) != len(c.Args) {
 			env.fail("macro %s expects %d arguments", name, len(m.Params))
@@ -1400,8 +1524,12 @@ func (env *specEnv) call(c *ast.CallExpr) Value {
 			args = append(args, env.flatten(arg(i))...)
 		}
 		t := UF(name, sig.res, args...)
-		if sig.lo != nil {
-			SetRange(t, sig.lo, sig.hi)
+		if sig.loE != nil && sig.res == IntSort {
+			lo, ok1 := env.eval(sig.loE).(*UConst)
+			hi, ok2 := env.eval(sig.hiE).(*UConst)
+			if ok1 && ok2 {
+				SetRange(t, lo.V.(*big.Int), hi.V.(*big.Int))
+			}
 		}
 		return t
 	}
@@ -1455,8 +1583,24 @@ var bcount int
 func boundCounter() int { bcount++; return bcount }
 
 type ufSig struct {
-	res    *Sort
-	lo, hi *big.Int
+	res      *Sort
+	lo, hi   *big.Int
+	loE, hiE ast.Expr
+}
+
+type GlobalFact struct {
+	Clause Clause
+	File   string
+	Pkg    string
+}
+
+var pkgRe = regexp.MustCompile(`(?m)^package (\w+)`)
+
+func pkgOfFile(src string) string {
+	if m := pkgRe.FindStringSubmatch(src); m != nil {
+		return m[1]
+	}
+	return ""
 }
 
 var ufSigs = map[string]ufSig{}
@@ -1507,4 +1651,98 @@ func LoadSpecLibrary(dir string) error {
 		}
 	}
 	return nil
+}
+
+func pathKey(p []Sel) string {
+	var sb strings.Builder
+	for _, s := range p {
+		if s.Field >= 0 {
+			fmt.Fprintf(&sb, ".%d", s.Field)
+		} else {
+			fmt.Fprintf(&sb, "[%s]", s.Idx)
+		}
+	}
+	return sb.String()
+}
+
+// beValue: big-endian integer value of a byte slice / byte array.  Constant lengths
+// up to 64 give the explicit polynomial (int mode) or concatenation (bv mode);
+// otherwise the uninterpreted function be(array, offset, length).
+func (env *specEnv) beValue(v Value) Value {
+	ex := env.ex
+	var sl *Slice
+	switch x := v.(type) {
+	case *Slice:
+		sl = x
+	case *Ptr:
+		at, ok := ex.typeAt(x.Obj.T, x.Path).Underlying().(*types.Array)
+		if !ok {
+			env.fail("be of pointer to non-array")
+		}
+		sl = &Slice{Base: x, Off: ex.idxConst(0), Len: ex.idxConst(at.Len()), Cap: ex.idxConst(at.Len()), Nil: False}
+	default:
+		env.fail("be of %T", v)
+	}
+	if sl.Len.IsConst() && sl.Len.Val.Int64() <= 64 {
+		n := sl.Len.Val.Int64()
+		if n == 0 {
+			if ex.mode == ModeInt {
+				return IntC64(0)
+			}
+			env.fail("be of empty slice in bv mode")
+		}
+		var acc *Term
+		for i := int64(0); i < n; i++ {
+			b := env.load(sl.Base.with(Sel{Field: -1, Idx: ex.add(sl.Off, ex.idxConst(i))})).(*Term)
+			if ex.mode == ModeInt {
+				if acc == nil {
+					acc = b
+				} else {
+					acc = IntAdd(IntScale(acc, big.NewInt(256)), b)
+				}
+			} else {
+				if acc == nil {
+					acc = b
+				} else {
+					acc = Concat(acc, b)
+				}
+			}
+		}
+		return acc
+	}
+	if ex.mode != ModeInt {
+		env.fail("be of symbolic-length slice in bv mode")
+	}
+	if sl.Base.Obj == nil {
+		return IntC64(0)
+	}
+	arr, ok := env.load(sl.Base).(*Term)
+	if !ok {
+		env.fail("be of non-scalar array")
+	}
+	t := UF("be", IntSort, arr, sl.Off, sl.Len)
+	env.st.assume(IntLe(IntC64(0), t))
+	env.st.assume(Implies(Eq(sl.Len, IntC64(0)), Eq(t, IntC64(0))))
+	// size bound (pow256 is exact up to 70 bytes)
+	env.st.assume(Implies(IntLe(sl.Len, IntC64(70)), IntLt(t, UF("pow256", IntSort, sl.Len))))
+	// definition of be at the length the library uses everywhere (32 bytes)
+	var acc *Term
+	for i := int64(0); i < 32; i++ {
+		b := Select(arr, IntAdd(sl.Off, IntC64(i)))
+		if acc == nil {
+			acc = b
+		} else {
+			acc = IntAdd(IntScale(acc, big.NewInt(256)), b)
+		}
+	}
+	env.st.assume(Implies(Eq(sl.Len, IntC64(32)), Eq(t, acc)))
+	// one-step unfolding of the definition: be(s[0:n]) = 256*be(s[0:n-1]) + s[n-1]
+	if !env.noUnfold {
+		sub := *env
+		sub.noUnfold = true
+		prev := UF("be", IntSort, arr, sl.Off, IntSub(sl.Len, IntC64(1)))
+		last := Select(arr, IntAdd(sl.Off, IntSub(sl.Len, IntC64(1))))
+		env.st.assume(Implies(IntLt(IntC64(0), sl.Len), And(Eq(t, IntAdd(IntScale(prev, big.NewInt(256)), last)), IntLe(IntC64(0), prev))))
+	}
+	return t
 }
